@@ -566,6 +566,17 @@ func (c *Context) Sqrt(d, x *Decimal) (Condition, error) {
 	nc.Precision = c.Precision
 	nc.Rounding = RoundHalfEven
 	res := nc.round(d, d)
+	if !res.Inexact() && d.Form == Finite {
+		// approx itself is a rounded value: when it happens to have no more
+		// than c.Precision significant digits the rounding above discards
+		// nothing, yet the root is exact only if the square of d is x.
+		// (f with its original exponent is x; x itself may be aliased by d.)
+		var sq Decimal
+		f.Exponent += int32(e)
+		if _, err := BaseContext.Mul(&sq, d, d); err != nil || sq.Cmp(&f) != 0 {
+			res |= Inexact | Rounded
+		}
+	}
 	return nc.goError(res)
 }
 
